@@ -69,8 +69,13 @@ def class_source(spec) -> str:
         args = []
         if f["dflt"]:
             args.append(f"default={DEFAULT}")
+        md = {}
+        if f.get("mo"):
+            md["description"] = "other metadata"
         if f["meta"] is not None:
-            args.append(f"metadata={{'alias': {f['meta']!r}}}")
+            md["alias"] = f["meta"]
+        if md:
+            args.append(f"metadata={md!r}")
         rhs = f" = field({', '.join(args)})" if args else ""
         L.append(f"    {f['name']}: {ty}{rhs}")
     L.append("    class Config(BaseConfig):")
@@ -305,7 +310,7 @@ def gen_spec(rng, force=None):
         elif rng.random() < 0.2:
             ann = [("other",)]                                        # Annotated without Alias
         fields.append({"name": n, "meta": meta, "ann": ann, "cfg": cfg, "dflt": False,
-                       "ty": rng.choice(["int", "any"])})
+                       "ty": rng.choice(["int", "any"]), "mo": rng.random() < 0.25})
     # defaults: a suffix of the fields (dataclass rule: no non-default after default)
     k = rng.randrange(nf + 1) if nf else 0
     for f in fields[nf - k:] if k else []:
@@ -419,13 +424,46 @@ def c_outcome(o) -> str:
     return '(OMissing "<unexpected exception>")'     # never equal to a model outcome (no such field name)
 
 
+
+def coq_check(name, model, items, ok_fun, ctx, shard=500):
+    """Like vlib.coq_bad_idx, but every shard file carries only the class definitions its cases use.
+    items: [(class index, definition text, case text)]."""
+    imports, gen_imports, needs = model
+    br = vlib.coq_make(["theories/Wire.vo", "theories/PyK.vo"] + needs)
+    if not br.ok:
+        return None, "model does not build: " + (br.error or "")
+    files = []
+    for si in range(0, max(len(items), 1), shard):
+        chunk = items[si:si + shard]
+        defs, seen = [], set()
+        for ci, dtxt, _ in chunk:
+            if ci not in seen:
+                seen.add(ci)
+                defs.append(dtxt)
+        txt = vlib.CASE_HEADER.format(imports=imports, gen_imports=gen_imports) + "\n".join(defs) + "\n"
+        txt += "Definition cases : list (cls * dict * outcome * bool) :=\n  [" + ";\n   ".join(c for _, _, c in chunk) + "].\n"
+        txt += f"Eval vm_compute in (bad_idx ({ok_fun}) cases).\n"
+        files.append((f"{name}_{si // shard}", txt))
+    res = vlib.coq_eval_many(files, timeout=600, jobs=4 if ctx.quick() else 12)
+    bad = []
+    for n, (ok, out) in enumerate(res):
+        if not ok:
+            return None, out[-3000:]
+        idx = vlib.parse_nat_list(out)
+        if idx is None:
+            return None, "unparsable coq output: " + out[-1500:]
+        bad.extend(n * shard + i for i in idx)
+    return bad, f"{len(files)} case files"
+
 # ---------------------------------------------------------------------------
 # the check
 # ---------------------------------------------------------------------------
 
-THEOREMS = ["K4_precedence", "K4_key_plan", "K4_allowed_keys", "C09_keys", "C09_reference", "C09_alias_wins",
-            "C09_fallback", "C09_accepted_covers_reads", "C09_extra_exact", "C09_ignored",
-            "C09_empty_alias_refuted", "C09_fieldless_refuted"]
+THEOREMS = ["K4_precedence", "K4_key_plan", "K4_allowed_keys", "C09_impl_is_code", "C09_keys_partial",
+            "C09_keys_refuted_empty_alias", "C09_keys_refuted_fieldless", "C09_field_key", "C09_outcome",
+            "C09_alias_wins", "C09_fallback", "C09_accepted_covers_reads", "C09_reads_allowed_partial",
+            "C09_reads_allowed_refuted", "C09_extra_members", "C09_extra_exact", "C09_ignored",
+            "C09_forbidden_reported"]
 
 KNOWN_KINDS = ("fieldless-forbid-extra", "empty-alias")
 
@@ -472,12 +510,32 @@ def run(ctx: vlib.Ctx):
         "alias values are strings (Alias(None) / aliases={..: None} are outside the property's quantifier)",
         "input keys are hashable scalars (str / None / int); values are irrelevant to key resolution (distinct ints used)",
     ]
-    ctx.theorems("props/C09_keys.vo", THEOREMS, kernels=["K4"])
+    br = ctx.theorems("props/C09_keys.vo", THEOREMS, kernels=["K4"])
+    # every registered name must be a theorem of the props file with its own Print Assumptions, all closed
+    import os
+    import re
+    ptxt = open(os.path.join(vlib.COQ, "props", "C09_keys.v")).read()
+    absent = [n for n in THEOREMS if not re.search(r"^Theorem %s\b" % n, ptxt, re.M)
+              or ("Print Assumptions %s." % n) not in ptxt]
+    if absent:
+        ctx.not_shown("theorems of props/C09_keys.vo", f"not stated in the props file: {absent}")
+    if br.ok:
+        pa = br.assumptions.get("print_assumptions", [])
+        if len(pa) != len(THEOREMS) or any(a != "Closed under the global context" for a in pa):
+            ctx.not_shown("assumptions of props/C09_keys.vo", f"expected {len(THEOREMS)} x closed, got {pa}")
     k4_ok = bool(ctx.kernel_report.get("K4", {}).get("ok"))
+    if not ctx.quick() and br.ok:
+        # second opinion of the independent checker on the compiled library of the property file
+        rc, out, secs = vlib.run(["timeout", "600", "coqchk", "-silent", "-o"] + vlib.COQ_FLAGS[:6] + ["VerifProps.C09_keys"],
+                                 cwd=vlib.COQ, timeout=640)
+        good = rc == 0 and "* Axioms: <none>" in out
+        ctx.obligation("coqchk VerifProps.C09_keys (axioms: none)", good, out[-600:])
+        if not good:
+            ctx.not_shown("coqchk VerifProps.C09_keys", out[-1500:])
 
     rng = ctx.rng
-    n_classes = ctx.budget(70, 900)
-    sub_max = ctx.budget(24, 256)
+    n_classes = ctx.budget(260, 500)
+    sub_max = ctx.budget(32, 256)
     forced = [{"allow": a, "forbid": b, "mixin": m, "nf": nf} for a in (False, True) for b in (False, True)
               for m in (False, True) for nf in (1, 2)]
     cases = []          # (spec, src, entry, d, obs)
@@ -530,46 +588,57 @@ def run(ctx: vlib.Ctx):
                              replay_of(spec, src, ename, d, obs, exp), sig)
             # all entry points agree? (if not, the oracle has already flagged at least one of them)
             obs0 = obs_all[0]
-            coq_cases.append(f"(c{ci}, {c_dict(d)}, {c_outcome(obs0)}, {vlib.coq_bool(dom)})")
+            coq_cases.append((ci, coq_defs[-1], f"(c{ci}, {c_dict(d)}, {c_outcome(obs0)}, {vlib.coq_bool(dom)})"))
             cases.append((spec, src, ents[0][0], d, obs0))
             if len(ctx.coverage["samples"]) < 6 and len(ks) >= 2 and rng.random() < 0.02:
                 ctx.sample({"class": src, "input": repr(d), "observed": repr(obs0)})
         drop_module(mod)
 
     # ---- correspondence: Coq models vs the real implementation, same cases
-    defs = "\n".join(coq_defs) + "\n"
     ok_impl = ("fun c => match c with (cl, d, o, dom) => "
                "res_outcome_eqb (impl_from_dict cl d) o && Bool.eqb (in_domain cl) dom end")
     ok_ref = ("fun c => match c with (cl, d, o, dom) => "
               "if in_domain cl then outcome_eqb (keymodel cl d) o else true end")
-    ctype = "cls * dict * outcome * bool"
+    ok_both = ("fun c => match c with (cl, d, o, dom) => "
+               "res_outcome_eqb (impl_from_dict cl d) o && Bool.eqb (in_domain cl) dom && "
+               "(if in_domain cl then outcome_eqb (keymodel cl d) o else true) end")
+    IMPL = ("KeyModel KeyImpl PyK_alias", "From VerifGen Require Import K4.", ["theories/KeyImpl.vo"])
+    REF = ("KeyModel", "", ["theories/KeyModel.vo"])
 
-    def report(name, bad, log):
+    def report(name, bad, log, n):
         if bad is None:
-            ctx.correspondence(name, len(coq_cases), -1, log)
+            ctx.correspondence(name, n, -1, log)
             ctx.not_shown("correspondence " + name, log)
             return
         det = ""
         if bad:
-            i = bad[0]
-            spec, src, en, d, obs = cases[i]
+            spec, src, en, d, obs = cases[bad[0]]
             det = f"{len(bad)} cases, first: class\n{src}\ninput {d!r}: implementation {obs!r}"
-        ctx.correspondence(name, len(coq_cases), len(bad), det)
+        ctx.correspondence(name, n, len(bad), det)
         if bad:
             ctx.not_shown("correspondence " + name, det)
 
+    n = len(coq_cases)
+    n_impl, n_ref = "impl-model(K4)-vs-from_dict", "keymodel(reference)-vs-from_dict"
     if k4_ok:
-        bad, log = vlib.coq_bad_idx("c09_impl", "KeyModel KeyImpl PyK_alias", "From VerifGen Require Import K4.", defs,
-                                    coq_cases, ok_impl, ctype, shard=500,
-                                    needs=["theories/KeyImpl.vo"])
-        report("impl-model(K4)-vs-from_dict", bad, log)
+        bad, log = coq_check("c09_both", IMPL, coq_cases, ok_both, ctx)
+        if bad is None or bad:
+            # attribute: run the two comparisons separately (on the disagreeing cases, or on all if Coq failed)
+            sub = list(range(n)) if bad is None else bad[:2000]
+            sub_cases = [coq_cases[i] for i in sub]
+            b1, l1 = coq_check("c09_impl", IMPL, sub_cases, ok_impl, ctx)
+            b2, l2 = coq_check("c09_ref", REF, sub_cases, ok_ref, ctx)
+            report(n_impl, None if b1 is None else [sub[i] for i in b1], l1, n)
+            report(n_ref, None if b2 is None else [sub[i] for i in b2], l2, n)
+        else:
+            report(n_impl, [], log, n)
+            report(n_ref, [], log, n)
     else:
-        ctx.correspondence("impl-model(K4)-vs-from_dict", len(coq_cases), -1, "kernel K4 did not translate")
-        ctx.not_shown("correspondence impl-model(K4)-vs-from_dict", "kernel K4 did not translate: "
+        ctx.correspondence(n_impl, n, -1, "kernel K4 did not translate")
+        ctx.not_shown("correspondence " + n_impl, "kernel K4 did not translate: "
                       + str(ctx.kernel_report.get("K4", {}).get("error")))
-    bad, log = vlib.coq_bad_idx("c09_ref", "KeyModel", "", defs, coq_cases, ok_ref, ctype, shard=500,
-                                needs=["theories/KeyModel.vo"])
-    report("keymodel(reference)-vs-from_dict", bad, log)
+        bad, log = coq_check("c09_ref", REF, coq_cases, ok_ref, ctx)
+        report(n_ref, bad, log, n)
     ctx.notes.append(f"oracle mismatches (incl. listed findings): {n_mismatch_oracle}")
 
 
